@@ -61,7 +61,7 @@ def execute_hist(record, make_hooks, trace=False):
             actor.run(record["ops"])
             if hooks.get("finish"):
                 hooks["finish"](actor)
-            st = dict(s.stats)
+            st = s.full_stats()
             st.update(s.k.counters)
             st["events"] = s.k.seq
             st["sim_seconds"] = (s.k.now_us - 1_700_000_000_000_000) / 1e6
@@ -70,7 +70,7 @@ def execute_hist(record, make_hooks, trace=False):
                                    notes=hooks.get("notes"), sample=sample_of(record))
             res["known_hits"] = dict(s.known_hits)
         except Violation as v:
-            st = dict(s.stats)
+            st = s.full_stats()
             st.update(s.k.counters)
             st["events"] = s.k.seq
             res = engine.result_violation(v.clause, v.detail, sig=v.sig, stats=st,
